@@ -38,6 +38,16 @@ EmitExplicit == Complete => PrintT(<<"XPROG", ToJson([Prog EXCEPT !.natives = Na
 VisitsWellFormed == Complete =>
   LET v == VisitsOf(XTree) d == DiscoverRule(XTree) IN
   (d.accept /\ v.indomain) => \A x \in DOMAIN v.visits : v.visits[x] >= 0 /\ v.visits[x] < Len(d.pairs)
+\* R7: the (repaired) discovery algorithm of the implementation agrees with the declarative bracket rule on
+\* acceptance and, when accepted, on the subcircuits
+DiscoverAlgRefinesRule == Complete =>
+  LET a == DiscoverAlg(XTree, FALSE) r == DiscoverRule(XTree) IN
+  a.accept = r.accept /\ (a.accept => a.pairs = r.pairs)
+\* the pinned algorithm over-rejects exactly when a trace is open at the entry of a repeating loop that closes only
+\* subcircuits opened inside it (used by ./check selftest: TLC must report this invariant violated)
+PinnedDiscoverAlgRefinesRule == Complete =>
+  LET a == DiscoverAlg(XTree, TRUE) r == DiscoverRule(XTree) IN a.accept = r.accept
+
 \* the norm of every emulated subcircuit state is preserved: sum |a|^2 = 2^k
 NormPreserved == Complete =>
   LET d == DiscoverRule(XTree) IN
